@@ -1118,12 +1118,12 @@ def CryptoKindOk (it : Kmip.Item) : Prop :=
 theorem cryptoResult_shape {uid : Option String} {cr : Crypto} {eff : Effect} {d : Data}
     (h : cryptoResult uid cr = .ok (eff, d)) :
     (∃ t, cr = .ok t ∧ d = .crypto (showUid uid) (.ok t)) ∨ (∃ b, cr = .verdict b ∧ d = .crypto (showUid uid) (.verdict b)) := by
-  unfold cryptoResult at h
-  split at h
-  · inv h; left; exact ⟨_, rfl, h.2.symm⟩
-  · inv h; right; exact ⟨_, rfl, h.2.symm⟩
-  · rename_i other _ _
-    cases other <;> simp [cryptoErr, kerr, ierr] at h
+  cases cr with
+  | ok t => simp only [cryptoResult] at h; inv h; left; exact ⟨t, rfl, h.2.symm⟩
+  | verdict b => simp only [cryptoResult] at h; inv h; right; exact ⟨b, rfl, h.2.symm⟩
+  | ok2 _ _ _ _ => simp [cryptoResult, cryptoErr, kerr, ierr] at h
+  | kmipError _ => simp [cryptoResult, cryptoErr, kerr, ierr] at h
+  | internal => simp [cryptoResult, cryptoErr, kerr, ierr] at h
 
 theorem processOperation_data_fits {c : Ctx} {e : Engine} {it : Kmip.Item} {eff : Effect} {d : Data}
     (hk : CryptoKindOk it) (h : processOperation c e it = .ok (eff, d)) : shapeFits it.payload.op d = true := by
@@ -1134,16 +1134,16 @@ theorem processOperation_data_fits {c : Ctx} {e : Engine} {it : Kmip.Item} {eff 
     · inv h
     · unfold CryptoKindOk at hk
       split at h <;> rename_i hpay <;> rw [hpay] at hk ⊢ <;> simp only [Payload.op] <;> simp only at hk
-      · unfold opCreate at h; inv h; strip h; subst d; rfl
-      · unfold opCreateKeyPair at h; inv h; strip h; subst d; rfl
+      · unfold opCreate at h; inv h; strip h; rfl
+      · unfold opCreateKeyPair at h; inv h; strip h; rfl
       · unfold opRegister at h
         inv h
         obtain ⟨_, h⟩ := h
         split at h
         · inv h
-        · inv h; strip h; subst d; rfl
-      · unfold opDeriveKey at h; inv h; strip h; subst d; rfl
-      · unfold opLocate at h; inv h; strip h; subst d; rfl
+        · inv h; strip h; rfl
+      · unfold opDeriveKey at h; inv h; strip h; rfl
+      · unfold opLocate at h; inv h; strip h; rfl
       · unfold opGet at h
         inv h
         obtain ⟨_, _, _, _, _, h⟩ := h
@@ -1166,8 +1166,8 @@ theorem processOperation_data_fits {c : Ctx} {e : Engine} {it : Kmip.Item} {eff 
             · split at hd
               · inv hd; subst hd; rfl
               · inv hd
-      · unfold opGetAttributes at h; inv h; strip h; subst d; rfl
-      · unfold opGetAttributeList at h; inv h; strip h; subst d; rfl
+      · unfold opGetAttributes at h; inv h; strip h; rfl
+      · unfold opGetAttributeList at h; inv h; strip h; rfl
       · unfold opActivate at h
         inv h
         obtain ⟨o, _, h⟩ := h
@@ -1184,8 +1184,8 @@ theorem processOperation_data_fits {c : Ctx} {e : Engine} {it : Kmip.Item} {eff 
           · split at h
             · inv h; obtain ⟨_, rfl⟩ := h; rfl
             · inv h; obtain ⟨_, _, rfl⟩ := h; rfl
-      · unfold opDestroy at h; inv h; strip h; subst d; rfl
-      · unfold opQuery at h; inv h; strip h; subst d; rfl
+      · unfold opDestroy at h; inv h; strip h; rfl
+      · unfold opQuery at h; inv h; strip h; rfl
       · unfold opDiscoverVersions at h
         split at h <;> inv h <;> (obtain ⟨_, rfl⟩ := h; rfl)
       · unfold opEncrypt at h; inv h; obtain ⟨_, _, h⟩ := h
@@ -1208,9 +1208,9 @@ theorem processOperation_data_fits {c : Ctx} {e : Engine} {it : Kmip.Item} {eff 
         rcases cryptoResult_shape h with ⟨t, _, rfl⟩ | ⟨b, hb, rfl⟩
         · rfl
         · exact absurd hb (hk b)
-      · unfold opSetAttribute at h; inv h; strip h; subst d; rfl
-      · unfold opModifyAttribute at h; inv h; strip h; subst d; rfl
-      · unfold opDeleteAttribute at h; inv h; strip h; subst d; rfl
+      · unfold opSetAttribute at h; inv h; strip h; rfl
+      · unfold opModifyAttribute at h; inv h; strip h; rfl
+      · unfold opDeleteAttribute at h; inv h; strip h; rfl
       · inv h
 
 /-- Create succeeds for Symmetric Key only: the Object Type of a Create response is that constant -/
